@@ -299,7 +299,7 @@ Qed.
 
 Lemma fn_ValuesForPath_ext gsk hsk ovp pp (vfa1 vfa2 : list t_key -> entries -> res (list value)) st m path subkeys :
   (forall ks, pp path = Ok ks -> vfa1 ks m = vfa2 ks m) ->
-  fn_ValuesForPath gsk hsk ovp pp vfa1 st m path subkeys = fn_ValuesForPath gsk hsk ovp pp vfa2 st m path subkeys.
+  fn_ValuesForPath ovp gsk hsk pp vfa1 st m path subkeys = fn_ValuesForPath ovp gsk hsk pp vfa2 st m path subkeys.
 Proof.
   intros H. unfold fn_ValuesForPath. cbv zeta.
   destruct (pp path) as [ks|e|] eqn:E; [rewrite (H ks eq_refl)|..]; reflexivity.
@@ -307,7 +307,7 @@ Qed.
 
 Theorem values_for_path_code_is_model_full : forall pf st m path subkeys,
   g_fieldSep st <> [] ->
-  fn_ValuesForPath (run_getSubKeyMap pf st) (run_hasSubKeys st) (run_oldValuesForPath pf st) (run_parsePath st) (run_valuesForArray pf st)
+  fn_ValuesForPath (run_oldValuesForPath pf st) (run_getSubKeyMap pf st) (run_hasSubKeys st) (run_parsePath st) (run_valuesForArray pf st)
     st m path subkeys
   = of_res (values_for_path pf (g_fieldSep st) (VMap m) path subkeys).
 Proof.
